@@ -309,14 +309,49 @@ def r13_4(repo: Repo) -> RuleResult:
     return rr
 
 
-RULES = [r13_1, r13_2, r13_3, r13_4]
+def r13_5(repo: Repo) -> RuleResult:
+    """A fit result must not depend on what the estimator object was fitted on before.  An attribute that fit updates
+    in place (`self.a += ...`, `/=`, ...) therefore has to be (re)assigned by a plain assignment earlier in the same
+    function on every path: an accumulator initialised only in __init__ keeps the previous fit's value."""
+    from ..cfg import CFG
+    from ..model import is_self_attr, walk_no_nested
+
+    rr = RuleResult("R13.5", "attributes updated in place on a fit path are re-initialised on every path before the update (refitting does not carry state)", floor=3)
+    seen: Set[int] = set()
+    for c in exported_estimators(repo):
+        for entry in ("fit", "fit_transform"):
+            for f in repo.reachable_from(c, entry):
+                if f.is_njit or f.name == "__init__":
+                    continue
+                augs = [n for n in walk_no_nested(f.node) if isinstance(n, ast.AugAssign) and is_self_attr(n.target) and id(n) not in seen]
+                if not augs:
+                    continue
+                g = CFG(f.node)
+                for n in augs:
+                    seen.add(id(n))
+                    attr = n.target.attr
+                    inits = [x.id for x in g.nodes if x.kind == "stmt" and isinstance(x.ast, ast.Assign)
+                             and any(is_self_attr(e, attr) for t in x.ast.targets for e in (t.elts if isinstance(t, (ast.Tuple, ast.List)) else [t]))]
+                    construct = "self.%s %s= ..." % (attr, type(n.op).__name__)
+                    if inits and g.must_pass(inits, g.node_for(n)):
+                        rr.ok(f, construct, "a plain assignment to self.%s precedes the update on every path" % attr, n.lineno)
+                    else:
+                        rr.bad(f, construct,
+                               "self.%s is updated in place but not (re)assigned earlier in %s on every path: a second fit of the same "
+                               "estimator object starts from the value the previous fit left, so the model depends on the object's history"
+                               % (attr, f.qualname), n.lineno)
+    return rr
+
+
+RULES = [r13_1, r13_2, r13_3, r13_4, r13_5]
 CLAIM = (
     "R13.1 alias + effect analysis (flow-sensitive abstract interpretation over each CFG, call summaries to a fixed point): no "
     "fit / fit_transform / transform / __add__ / exported function may mutate, directly or through any callee, one of its "
     "data arguments, an element of it, or an object passed as a constructor parameter; R13.2 no attribute is carried by "
     "transform (read before written in a call and written or mutated on the transform path) outside a reviewed, re-validated "
     "table; R13.3 every mkdtemp/mkstemp is released by a try/finally or context manager; R13.4 every RNG consumer on the fit "
-    "path of an estimator with random_state is seeded from self.random_state."
+    "path of an estimator with random_state is seeded from self.random_state; R13.5 every attribute updated in place on a fit path is "
+    "re-initialised by a plain assignment on every path before the update (CFG must-pass-through)."
 )
 NOT_DECIDED = "bit-level reproducibility of parallel sums; effects of unresolved external calls (assumed pure; the library mutators the repository uses are tabled)."
 ASSUMPTIONS = [
